@@ -389,12 +389,10 @@ class Term:
     def __ge__(self, o): return self._cmp(o, '>=')
 
     def __eq__(self, o):
-        r = self._cmp(o, '==')
-        return False if r is NotImplemented else r
+        return self._cmp(o, '==')        # NotImplemented for foreign operands, like float (reflected method, then identity)
 
     def __ne__(self, o):
-        r = self._cmp(o, '!=')
-        return True if r is NotImplemented else r
+        return self._cmp(o, '!=')
 
     __hash__ = None
 
@@ -908,6 +906,8 @@ def _angle_relation(c, t, base_v, sign, offsets, period):
 
 
 def _atan2(y, x):
+    if not isinstance(y, Term) and not isinstance(x, Term) and isinstance(y, (int, float)) and isinstance(x, (int, float)):
+        return _math.atan2(y, x)
     yt, xt = Term.lift(y), Term.lift(x)
     if yt is None or xt is None:
         raise TypeError('atan2 arguments')
